@@ -29,6 +29,7 @@ from vlib import *
 import subprocess, re
 import c12_gen as G
 import c12_ops as O
+import c12_dir as D
 
 GEN_OPTS = ["-pdu=all", "-fcompound-names"]
 
@@ -851,6 +852,11 @@ def main(tier):
     nmi = len(O.MI_SHAPES) + (2 if quick else 40)
     misets = [O.modid_set(rng, i, O.MI_SHAPES[i] if i < len(O.MI_SHAPES) else None) for i in range(nmi)]
     mi_futs = [pool.submit(O.case_modid, ctx, i, ms, 24) for i, ms in enumerate(misets)]
+    # (m) what the output directory already holds: sized base modules x option sets x stale directory states (directed: the same in
+    # every run), then random stale states on rich modules; its own Rng stream, so that the other families keep their draws
+    drng = Rng(run.seed * 7919 + 12)
+    dcases = D.directed_cases(run.seed, quick) + D.random_cases(drng, [m["text"] for (m, _, _) in rich[:(6 if quick else 40)]], quick)
+    dir_futs = [pool.submit(D.case_dir, ctx, 70000 + i, c) for i, c in enumerate(dcases)]
     nsets = 12 if quick else 80
     sets = []
     for i in range(nsets):
@@ -1308,6 +1314,25 @@ def main(tier):
     for i, (ms, f) in enumerate(zip(misets, mi_futs)):
         O.eval_modid(run, ms, f.result(), mi_model.get(i) if have_model else None)
     run.sample({"modid_set": dict(misets[0]["files"]), "shape": misets[0]["shape"]})
+
+    # 4g. output directory states: the fresh-directory tree whatever the directory held; decision of identical_files vs the model ----
+    dir_results = [f.result() for f in dir_futs]
+    dir_model = {}
+    if have_model:
+        lines, where = [], []
+        for ci, r in enumerate(dir_results):
+            for (si, fn, ln) in D.ident_lines(r, cap=40 if quick else 120):
+                lines.append(ln)
+                where.append((ci, si, fn))
+        rcm, mo, me = run_lines(model, lines) if lines else (0, [], "")
+        if rcm != 0 or len(mo) != len(lines):
+            run.violation("model:driver", {"what": "model driver failed (c12_ident)", "stderr": me}, no_input=True)
+        else:
+            for (ci, si, fn), out in zip(where, mo):
+                dir_model.setdefault(ci, {})[(si, fn)] = out
+    for ci, (c, r) in enumerate(zip(dcases, dir_results)):
+        D.eval_dir(run, c, r, dir_model.get(ci) if have_model else None)
+    run.sample({"outdir_case": {k: v for k, v in dcases[2].items() if k != "text"}, "states": [s_["st"]["label"] for s_ in dir_results[2].get("states", [])][:40]})
 
     # 5. shipped corpus ------------------------------------------------------
     for p, f in zip(files, corpus_futs):
